@@ -12,7 +12,8 @@ PROFILE = 'mixed'
 
 def run(chk):
     chk.rule = ('histories mixing valid bodies (line endings, escapes, sub-components, non-ASCII) with the invalid classes (empty, arbitrary text, truncated, control characters, card without BEGIN/END), immediate re-uploads included, on all four back ends; validity/normal form/UID of each body are computed by icalendar/vobject directly')
-    chk.lean_obligations(MODULE, AUDIT)
+    import transval
+    chk.lean_obligations(MODULE, AUDIT, regen=lambda c: transval.regen(c, ["ExcTables"]))
     toks = Tokens()
     n = 12 if chk.tier == "quick" else 150
     tmpls = gen_many(chk, toks, n, 25 if chk.tier == "quick" else 40, PROFILE)
@@ -27,6 +28,100 @@ def run(chk):
         os.umask(old_umask)
     # through the server, incl. a collection made by plain MKCOL (its type is only guessed)
     run_http_templates(chk, Tokens(), 5 if chk.tier == "quick" else 50, 30, "mixed", PREFIXES)
+    roundtrip_probe(chk)
+
+
+TZ = ("BEGIN:VTIMEZONE\r\nTZID:%s\r\nBEGIN:STANDARD\r\nDTSTART:19701025T030000\r\nTZOFFSETFROM:%s\r\nTZOFFSETTO:%s\r\n"
+      "TZNAME:S\r\nEND:STANDARD\r\nEND:VTIMEZONE\r\n")
+
+
+def special_objects():
+    """calendar objects whose normal form has more to get wrong than a plain event's"""
+    head = "BEGIN:VCALENDAR\r\nVERSION:2.0\r\nPRODID:-//x//y//EN\r\n"
+    ev = lambda uid, body: ("%sBEGIN:VEVENT\r\nUID:%s\r\n%sEND:VEVENT\r\nEND:VCALENDAR\r\n" % (head, uid, body)).encode()
+    two_tz = (head + TZ % ("Europe/Berlin", "+0200", "+0100") + TZ % ("America/New_York", "-0400", "-0500") +
+              "BEGIN:VEVENT\r\nUID:rt-two-zones\r\nDTSTART;TZID=Europe/Berlin:20240105T100000\r\n"
+              "DTEND;TZID=America/New_York:20240105T120000\r\nSUMMARY:two zones\r\nEND:VEVENT\r\nEND:VCALENDAR\r\n").encode()
+    return [
+        ("recurring.ics", ev("rt-rrule", "DTSTART:20240101T090000Z\r\nDTEND:20240101T100000Z\r\nRRULE:FREQ=DAILY;COUNT=5\r\nSUMMARY:daily\r\n")),
+        ("override.ics", ("%sBEGIN:VEVENT\r\nUID:rt-ov\r\nDTSTART:20240101T090000Z\r\nRRULE:FREQ=WEEKLY;COUNT=3\r\nSUMMARY:weekly\r\nEND:VEVENT\r\n"
+                          "BEGIN:VEVENT\r\nUID:rt-ov\r\nRECURRENCE-ID:20240108T090000Z\r\nDTSTART:20240108T110000Z\r\nSUMMARY:moved\r\nEND:VEVENT\r\n"
+                          "END:VCALENDAR\r\n" % head).encode()),
+        ("twozones.ics", two_tz),
+        ("alarm.ics", ev("rt-alarm", "DTSTART:20240102T090000Z\r\nSUMMARY:with alarm\r\nBEGIN:VALARM\r\nACTION:DISPLAY\r\nTRIGGER:-PT15M\r\n"
+                                     "DESCRIPTION:soon\r\nEND:VALARM\r\n")),
+        ("text.ics", ev("rt-text", "DTSTART:20240103T090000Z\r\nSUMMARY:a\\, b\\; c \\n d é\r\nATTENDEE:mailto:b@example.org\r\n"
+                                   "ATTENDEE:mailto:a@example.org\r\nCATEGORIES:x,y\r\n")),
+    ]
+
+
+def roundtrip_probe(chk):
+    """upload, let the server read the objects in every way it knows (GET, multiget, queries with a time range
+    and with expansion, sync), then upload exactly what it serves: same ETag, same collection tag, no commit"""
+    import shutil
+    import urllib.parse
+    import dulwich.repo
+    import compat  # noqa: F401
+    from common import scratch_dir
+    from httpdrv import make_server, parse_multistatus
+    C = "urn:ietf:params:xml:ns:caldav"
+    for fe in ("wsgi", "aiohttp"):
+        root = scratch_dir()
+        srv = make_server(fe, root + "/data", prefix="/")
+        try:
+            base = "/user/calendars/calendar/"
+            objs = special_objects()
+            for n, d in objs:
+                srv.request("PUT", base + n, {"Content-Type": "text/calendar"}, d)
+
+            def ctag():
+                r = srv.request("PROPFIND", base, {"Depth": "0", "Content-Type": "text/xml"},
+                                b'<D:propfind xmlns:D="DAV:" xmlns:CS="http://calendarserver.org/ns/"><D:prop><CS:getctag/></D:prop></D:propfind>')
+                ms = parse_multistatus(r.body) if r.status == 207 else None
+                e = ms[0][0]["props"].get("{http://calendarserver.org/ns/}getctag") if ms and ms[0] else None
+                return e[1].text if e else None
+
+            def commits():
+                repo = dulwich.repo.Repo(root + "/data" + base.rstrip("/"))
+                try:
+                    return sum(1 for _ in repo.get_walker())
+                finally:
+                    repo.close()
+            hrefs = "".join("<D:href>%s</D:href>" % (base + urllib.parse.quote(n)) for n, _ in objs)
+            reports = [
+                '<C:calendar-multiget xmlns:D="DAV:" xmlns:C="%s"><D:prop><D:getetag/><C:calendar-data/></D:prop>%s</C:calendar-multiget>' % (C, hrefs),
+                '<C:calendar-multiget xmlns:D="DAV:" xmlns:C="%s"><D:prop><C:calendar-data><C:expand start="20240101T000000Z" '
+                'end="20240201T000000Z"/></C:calendar-data></D:prop>%s</C:calendar-multiget>' % (C, hrefs),
+                '<C:calendar-query xmlns:D="DAV:" xmlns:C="%s"><D:prop><C:calendar-data><C:expand start="20240101T000000Z" '
+                'end="20240201T000000Z"/></C:calendar-data></D:prop><C:filter><C:comp-filter name="VCALENDAR"><C:comp-filter name="VEVENT">'
+                '<C:time-range start="20240101T000000Z" end="20240201T000000Z"/></C:comp-filter></C:comp-filter></C:filter></C:calendar-query>' % C,
+                '<D:sync-collection xmlns:D="DAV:"><D:sync-token/><D:sync-level>1</D:sync-level><D:prop><D:getetag/></D:prop></D:sync-collection>',
+            ]
+            for rnd in (1, 2):
+                for b in reports:
+                    srv.request("REPORT", base, {"Depth": "1", "Content-Type": "text/xml"}, b.encode())
+                for n, _ in objs:
+                    g = srv.request("GET", base + urllib.parse.quote(n))
+                    if g.status != 200:
+                        chk.notes.append("round-trip probe: GET %s = %d" % (n, g.status))
+                        continue
+                    e0, t0, c0 = g.header("ETag"), ctag(), commits()
+                    p = srv.request("PUT", base + urllib.parse.quote(n), {"Content-Type": "text/calendar", "If-Match": e0}, g.body)
+                    g2 = srv.request("GET", base + urllib.parse.quote(n))
+                    e1, t1, c1 = g2.header("ETag"), ctag(), commits()
+                    chk.case(("roundtrip", fe, n, rnd), nontrivial=True)
+                    if p.status not in (200, 201, 204) or (e0, t0, c0) != (e1, t1, c1) or g2.body != g.body:
+                        what = ("refused (%d)" % p.status if p.status not in (200, 201, 204) else
+                                "changed the ETag" if e0 != e1 else "changed the collection tag" if t0 != t1 else
+                                "added a commit" if c0 != c1 else "changed the body served")
+                        chk.violation("C14:reupload-of-the-served-body-is-not-a-noop:" + n.split(".")[0],
+                                      f"{fe}: uploading what GET serves for {n} (round {rnd}, after multiget / expand / time-range / "
+                                      f"sync reports) {what}: ETag {e0} -> {e1}, ctag {t0} -> {t1}, commits {c0} -> {c1}",
+                                      {"level": "http", "frontend": fe, "member": n, "uploaded": g.body.decode("utf-8", "replace"),
+                                       "original": dict(objs)[n].decode("utf-8")})
+        finally:
+            srv.close()
+            shutil.rmtree(root, ignore_errors=True)
 
 
 def replay(chk, path):
